@@ -176,9 +176,9 @@ func (c *RetryClient) publish(ctx context.Context, cli *BaseClient, message *Mes
 }
 
 func (c *RetryClient) subscribe(ctx context.Context, retry bool, cli *BaseClient, subs ...Subscription) {
-	subscribe := func(ctx context.Context, cli *BaseClient) error {
-		subscriptions(subs).applyTo(&c.subEstablished)
+	subscriptions(subs).applyTo(&c.subEstablished)
 
+	subscribe := func(ctx context.Context, cli *BaseClient) error {
 		ctx2, cancel := c.requestContext(ctx)
 		defer cancel()
 		if _, err := cli.Subscribe(ctx2, subs...); err != nil {
@@ -208,9 +208,9 @@ func (c *RetryClient) subscribe(ctx context.Context, retry bool, cli *BaseClient
 }
 
 func (c *RetryClient) unsubscribe(ctx context.Context, cli *BaseClient, topics ...string) {
-	unsubscribe := func(ctx context.Context, cli *BaseClient) error {
-		unsubscriptions(topics).applyTo(&c.subEstablished)
+	unsubscriptions(topics).applyTo(&c.subEstablished)
 
+	unsubscribe := func(ctx context.Context, cli *BaseClient) error {
 		ctx2, cancel := c.requestContext(ctx)
 		defer cancel()
 		if err := cli.Unsubscribe(ctx2, topics...); err != nil {
